@@ -143,8 +143,16 @@ def run(ctx: Ctx) -> None:
                 dec = uu.TransformerDecoder(hidden_size=8, vocab_size=16, layers=L, heads=2,
                                             residual_scaling=rules.setdefault(
                                                 (r, rho), transformer_residual_scaling_rule(float(r), float(rho))))
-            conv = ctx.rng.choice([None, None, "bfloat16", "half-float", "float"])
-            if conv == "bfloat16":
+            conv = ctx.rng.choice([None, None, "bfloat16", "half-float", "float", "load_state_dict", "load_state_dict"])
+            if conv == "load_state_dict":
+                # a checkpoint round trip (own state, or the checkpoint of an identically configured stack): the residual
+                # weights are part of what the stack is
+                import copy as _copy
+                other = uu.TransformerDecoder(hidden_size=8, vocab_size=16, layers=L, heads=2) if pair == "default" else \
+                    uu.TransformerDecoder(hidden_size=8, vocab_size=16, layers=L, heads=2,
+                                          residual_scaling=transformer_residual_scaling_rule(float(r), float(rho)))
+                dec.load_state_dict(_copy.deepcopy((other if ctx.rng.random() < 0.5 else dec).state_dict()))
+            elif conv == "bfloat16":
                 dec = dec.to(torch.bfloat16)
             elif conv == "half-float":
                 dec = dec.half().float()
